@@ -1,4 +1,5 @@
 import UgoVerif.Proofs.JsonEnc
+import UgoVerif.Proofs.JsonScan
 /-
   C17 — the json module produces and accepts exactly standard JSON.
 
@@ -106,6 +107,25 @@ theorem marshal_full_false : ¬ marshal_full := by
   intro h
   have := h L0 L0_ok .errval [] rfl
   exact absurd this (by decide)
+
+/-! ### the scanner never panics -/
+
+/-- `valid` (checkValid over the scanner automaton) returns a verdict for every byte string:
+    neither `parseState[n-1]` in `stateBeginStringOrEmpty` nor the slice in `popParseState`
+    is ever reached with an empty parse stack. -/
+theorem valid_no_panic (bs : Bytes) : ∃ b, valid bs = .ok b :=
+  checkLoop_no_panic bs Scanner.new stackInv_new
+
+/-- `indentBuffer` returns output or the scanner's error for every input, prefix and indent -/
+theorem indent_no_panic (pre ind bs : Bytes) : ∃ o, indent pre ind bs = .ok o := by
+  unfold indent
+  obtain ⟨st', e, h'⟩ := indentLoop_no_panic pre ind bs
+    { scan := Scanner.new, out := [], needIndent := false, depth := 0 } stackInv_new
+  obtain ⟨s'', op, e2⟩ := eof_post st'.scan h'
+  simp only [bind, Res.bind, e, e2]
+  split <;> exact ⟨_, rfl⟩
+
+example : valid [0x7B, 0x7D] = .ok true ∧ valid [0x7D] = .ok false := by decide
 
 /-! ### the full statement -/
 
